@@ -233,15 +233,33 @@ def slice_form(sl):
         return None
     # upper bound is checked for consistency: either open, or lower + N*step
     if sl.upper is not None:
-        up = lin(sl.upper)
-        if up is None:
-            return None
-        want = (lo[0] + step, lo[1]) if step == 1 else None
-        if step == 1 and up != want:
-            return None
-        if step != 1:
-            return None
+        # an explicit stop must select exactly N rows: len(range(lower, upper, step)) == N for N = 3 and 5
+        for N in (3, 5):
+            try:
+                lo_v = ev(sl.lower, {'N': N}) if sl.lower is not None else 0
+                up_v = ev(sl.upper, {'N': N})
+            except Undecidable:
+                return None
+            if len(range(lo_v, up_v, step)) != N:
+                return None
     return (step, lo[0], lo[1])
+
+
+def permutation_any(f):
+    """Row moves of map_to_state / state_to_map in whatever form they are written: element assignments inside loops over
+    range(N) (one loop or several) and slice assignments; same result format as permutation_loop."""
+    res = {}
+    for arr, items in permutation_loop(f).items():
+        res.setdefault(arr, []).extend(items)
+    for st, ctx in walk(f.node):
+        if ctx.loops or not (isinstance(st, ast.Assign) and isinstance(st.targets[0], ast.Subscript) and isinstance(st.value, ast.Subscript)):
+            continue
+        t, v = st.targets[0], st.value
+        if not (isinstance(t.value, ast.Name) and isinstance(v.value, ast.Name)):
+            continue
+        if isinstance(t.slice, ast.Slice) and isinstance(v.slice, ast.Slice):
+            res.setdefault(t.value.id, []).append((slice_form(t.slice), slice_form(v.slice), v.value.id, st))
+    return res
 
 
 def permutation_slices(f):
